@@ -152,6 +152,73 @@ def gen_history(rng, small=True):
     return h
 
 
+def gen_wide_history(rng):
+    """12-40 object variables created INTERLEAVED with new_eq requests (so that anything computed from the current number of
+    variables changes between requests), pairs whose indices have one and two decimal digits, including pairs that are digit-wise
+    re-splittings of each other ((1,12)/(11,2), (1,23)/(12,3), (2,13)/(21,3) ...), both argument orders, repeated requests.
+    Every equality literal is judged (JQ) right after the request."""
+    h = Hist()
+    h.tags.add("wide")
+    target = rng.randint(12, 40)
+    pool = list(range(0, 6))
+    doms = []
+
+    def new_var():
+        size = rng.choice([1, 2, 2, 2, 3])
+        vals = rng.sample(pool[:4] if rng.random() < 0.7 else pool, size)
+        enforce = 0 if (size > 1 and rng.random() < 0.5) else 1   # unenforced variables need no exactly-one encoding: smaller networks
+        h.add("N", enforce, *vals)
+        doms.append(vals)
+
+    for _ in range(rng.randint(2, 6)):
+        new_var()
+    pairs = []
+    # re-splittings of one digit string into two indices
+    for _ in range(6):
+        digits = "".join(rng.choice("123") for _ in range(3))
+        a, b = (int(digits[0]), int(digits[1:])), (int(digits[:2]), int(digits[2]))
+        pairs += [a, b]
+    steps = 0
+    while (len(doms) < target or pairs) and steps < 200:
+        steps += 1
+        r = rng.random()
+        ready = [p for p in pairs if max(p) < len(doms) and p[0] != p[1]]
+        if ready and r < 0.45:
+            p = ready[0]
+            pairs.remove(p)
+            a, b = p if rng.random() < 0.5 else (p[1], p[0])
+            h.add("Q", a, b)
+            h.tags.add("resplit-pair")
+        elif len(doms) >= 2 and r < 0.7:
+            a = rng.randrange(len(doms))
+            b = rng.randrange(len(doms))
+            h.add("Q", a, b)
+        elif len(doms) < target:
+            new_var()
+        elif not ready:
+            break
+    # a long run of further requests over many different pairs: pairs sharing an end point, pairs with equal index sums /
+    # products / digit strings, both argument orders, some repeated
+    n = len(doms)
+    for _ in range(rng.randint(15, 40)):
+        a = rng.randrange(n)
+        mode = rng.random()
+        if mode < 0.3:
+            b = rng.randrange(n)
+        elif mode < 0.5:
+            b = (a + rng.choice([1, 2, 9, 10, 11])) % n
+        elif mode < 0.7:
+            # same sum as the previous pair
+            s = sum(last) if (last := getattr(h, "_last", None)) else a
+            b = s - a if 0 <= s - a < n else rng.randrange(n)
+        else:
+            t = str(a) + str(rng.randrange(10))
+            b = int(t) if int(t) < n else rng.randrange(n)
+        h._last = (a, b)
+        h.add("Q", a, b)
+    return h
+
+
 def corner_histories():
     out = []
 
